@@ -271,7 +271,7 @@ def gen_plan(rng, tier):
         elif r < 0.5:
             s = rng.randrange(nsets)
             mode = rng.choice(["fresh", "fresh", "same", "permute", "permute", "handover", "mixed", "reversed",
-                               "same_list", "inplace", "inplace", "subset", "subset"])
+                               "same_list", "inplace", "inplace", "subset", "subset", "sorted"])
             ops.append(["set_labels", e, s, mode, rng.randrange(1 << 30)])
             engine_set[e] = s
         elif r < 0.6:
@@ -730,8 +730,9 @@ def _run(plan):
                     lst = [lst[i] for i in keep]
                     spec = [spec[i] for i in keep]
                     bump("probe:subset_of_used_labels")
-                if mode_eff == "reversed":
-                    lst.sort(key=lambda n: (n.idealPos, n.width), reverse=True)
+                if mode_eff in ("reversed", "sorted"):
+                    # input already in (descending / ascending) position order
+                    lst.sort(key=lambda n: (n.idealPos, n.width), reverse=(mode_eff == "reversed"))
                     eng["permuted"] = True
                 elif mode_eff == "same_list" and eng.get("last_list") is not None \
                         and eng.get("last_list_set") == s:
@@ -748,7 +749,7 @@ def _run(plan):
                 if mode_eff in ("permute", "mixed") and (mode_eff == "permute" or seed % 2):
                     random.Random(seed).shuffle(lst)
                     eng["permuted"] = True
-                elif mode_eff != "reversed":
+                elif mode_eff not in ("reversed", "sorted"):
                     eng["permuted"] = False
                 eng["last_list"] = lst
                 eng["last_spec"] = spec
